@@ -59,6 +59,9 @@ class SimFile:
             self.flush()
         finally:
             self.closed = True
+        if not self.disk.frozen:
+            self.disk.closed_ok.append(self.path)
+            self.disk.run.log.add("disk", "close", self.path)
 
     def tell(self):
         return len(self.disk.files.get(self.path, b""))
@@ -101,6 +104,7 @@ class SimDisk:
         self.fault = None
         self.opens = []  # (path, mode) in order
         self.completed = []  # paths whose write handle was closed normally, in order
+        self.closed_ok = []  # every write handle (binary or text) closed normally, in order
         self._orig = {}
         self._mods = []
 
